@@ -8,6 +8,7 @@ pub trait LabelType: Clone + Eq + std::hash::Hash + Sized {}
 impl<T: Clone + Eq + std::hash::Hash + Sized> LabelType for T {}
 
 /// stands for `anyhow::Error`: only *whether* a call fails is verified, never the message.
+#[derive(Debug)]
 pub struct Error;
 pub type Result<T> = core::result::Result<T, Error>;
 pub fn anyhow_error() -> Error { Error }
